@@ -306,6 +306,7 @@ func GenBase(r *Rand, p *Profile) *h.Scenario {
 	for ci := 0; ci < nc; ci++ {
 		var ops []h.Op
 		var own []*barGen
+		var waitLater []int
 		for i := 0; i < nb; i++ {
 			if owner[i] == ci {
 				own = append(own, bg[i])
@@ -376,13 +377,22 @@ func GenBase(r *Rand, p *Profile) *h.Scenario {
 			}
 			ops = append(ops, genFinisher(r, p, b)...)
 			if r.Bool(0.2) {
-				ops = append(ops, h.Op{K: h.OpBarWait, Bar: b.idx})
+				// a queued bar cannot shut down before its predecessor has: wait for it only
+				// after every finisher has been issued
+				if sc.Bars[b.idx].QueueAfter >= 0 {
+					waitLater = append(waitLater, b.idx)
+				} else {
+					ops = append(ops, h.Op{K: h.OpBarWait, Bar: b.idx})
+				}
 			}
 			if r.Bool(p.PPostTerminalOps) {
 				if op, ok := genOp(r, p, sc, []*barGen{b}, ci, &nWrites); ok {
 					ops = append(ops, op)
 				}
 			}
+		}
+		for _, b := range waitLater {
+			ops = append(ops, h.Op{K: h.OpBarWait, Bar: b})
 		}
 		sc.Clients[ci] = ops
 	}
